@@ -20,7 +20,9 @@ use std::rc::Rc;
 use std::sync::atomic::{AtomicBool, Ordering};
 #[cfg(not(wilfred_garden_verif))]
 use std::sync::mpsc::{self, Receiver, RecvTimeoutError, Sender};
-use std::sync::{Arc, Mutex, Weak};
+#[cfg(not(wilfred_garden_verif))]
+use std::sync::Mutex;
+use std::sync::{Arc, Weak};
 use std::time::{Duration, Instant};
 #[cfg(wilfred_garden_verif)]
 use std::fs;
@@ -28,6 +30,8 @@ use std::fs;
 use std::{fs, thread};
 #[cfg(wilfred_garden_verif)]
 use verif_rt::sched::mpsc::{self, Receiver, RecvTimeoutError, Sender};
+#[cfg(wilfred_garden_verif)]
+use verif_rt::sched::sync::Mutex;
 #[cfg(wilfred_garden_verif)]
 use verif_rt::sched::thread;
 
@@ -1653,6 +1657,7 @@ pub(crate) mod verif_access {
 
         json!({
             "end": result.end,
+            "leaked": result.leaked,
             "tasks": result.tasks,
             "trace": result.trace.iter().map(|p| json!({
                 "by": p.by,
